@@ -481,3 +481,7 @@ pub fn seed_shpks(ctx: &Ctx, n: usize) -> Vec<(String, Vec<u8>, Vec<u32>, Vec<u3
     }
     out
 }
+
+pub fn shpk_strategy_pub(ctx: &Ctx) -> BoxedStrategy<ShpkSpec> {
+    shpk_strategy(ctx)
+}
